@@ -176,7 +176,7 @@ pub fn farm_shard(
     rep
 }
 
-const WPOOL_NOTE: &str = " || W-pool generator: amplifications 1..u64::MAX, registry and creator-declared decimals (0..18), fee structures 0..20% (incl. pools charging exactly one kind of fee), zero / same-denom / other-denom creation and token-factory fees per shard, block times with sub-second parts, scripted 'exodus' episodes (every withdrawable holder of one pool leaves, dust trades, re-seed), degenerate self-hops, routes revisiting pools.";
+const WPOOL_NOTE: &str = " || W-pool generator: amplifications 1..u64::MAX, registry and creator-declared decimals (0..18), fee structures 0..20% (incl. pools charging exactly one kind of fee), explicit identifiers that shadow how other pools are stored, zero / same-denom / other-denom creation and token-factory fees per shard, block times with sub-second parts, scripted 'exodus' episodes (every withdrawable holder of one pool leaves, dust trades, re-seed), degenerate self-hops, routes revisiting pools.";
 const WFARM_NOTE: &str = " || W-farm generator: per-shard farm limits {1,2,3,12}, epoch durations {86400, 129600, 100003, 604800} s, sub-second block times, farms of 1..1200 epochs and practically open-ended ones (end up to u64::MAX), budgets from 1000, under-/over-funded creations, positions named with and without the contract's identifier prefix, scripted 'leave and return' episodes (claim, close everything in one LP token - some in pieces -, stay away, re-open, claim). Expansions of 1..5 epochs and of 1000, 2^32, 2^63-1, ~2^64, 2^70 epochs when the owner can pay.";
 
 fn fin(mut rep: Reporter, cfg: &RunCfg, level: &str, rule: &str, assumptions: &[&str], t0: Instant, extra: serde_json::Value) -> i32 {
@@ -193,6 +193,7 @@ fn fin(mut rep: Reporter, cfg: &RunCfg, level: &str, rule: &str, assumptions: &[
         "C09" => " || the penalty is recovered from what each party ends up with (independent of how transfers are batched); the fee collector is the one configured at the time of the exit, and one forked exit probe in three first re-points it at the owner of an active farm; undefined_epoch_probe every 60th step (genesis moved ahead: an executed exit is judged against the farms active when epochs were last defined).",
         "C03" => " || one there-and-back trip in three sends each leg as one routed message of 2-5 hops.",
         "C10" => " || forked many_snapshots_probe (twelve top-ups in twelve epochs without a claim, then every open position of that staker leaves through the emergency exit).",
+        "C15" => " || plus a freshly deployed farm manager whose pool manager address is still empty: nobody but the owner may wire it.",
         "C16" => " || forked reuse_probe every 40th step: a taken explicit identifier requested again (same assets, other order, other assets, other count/type) under the faithful and under a lenient token factory; must be refused and leave the pool unchanged.",
         "C08" => " || the forked probe also sends locked deposits naming the probed position as stored and as typed (without the prefix), through its own pool and another one, from strangers and the owner (a deposit into a pool of another LP token must never change a position); after unlocking, the plain withdrawal must also succeed while the epoch manager reports no current epoch.",
         _ => "",
